@@ -230,15 +230,18 @@ def gen_xproc_sessions(r, quick: bool):
             items += [dict(copy.deepcopy(c), proc=pi) for c in calls]
         S.append(dict(kind="xproc_calls", procs=procs, items=items))
     # whole runs: pipeline seed only / model seeds only, incl. the HxRG noise generator driven by the pipeline seed
+    # distinct pipeline seeds: two DIFFERENT configurations started from the same seed could draw the same
+    # numbers for a while, an equality the free generator of the model does not predict
+    ps = r.sample(SEEDS + [r.randrange(2, 2 ** 32 - 1), r.randrange(2, 100000)], 4)
     runs = [
-        dict(op="exposure", pipeline=probe_pipeline(r, own_seed=gen_seed(r)), steps=2, pipeline_seed=gen_seed(r)),
-        dict(op="exposure", det="cmos", rows=16, temp=100.0, steps=1, pipeline_seed=gen_seed(r),
+        dict(op="exposure", pipeline=probe_pipeline(r, own_seed=gen_seed(r)), steps=2, pipeline_seed=ps[0]),
+        dict(op="exposure", det="cmos", rows=16, temp=100.0, steps=1, pipeline_seed=ps[1],
              pipeline=[dict(k="model", model="simple_conversion"), dict(k="collect"), dict(k="measure"),
                        dict(k="model", model="nghxrg")]),
-        dict(op="observation", dask=False, pipeline=probe_pipeline(r), values=[1, 2], pipeline_seed=gen_seed(r)),
+        dict(op="observation", dask=False, pipeline=probe_pipeline(r), values=[1, 2], pipeline_seed=ps[2]),
     ]
     if not quick:
-        runs.append(dict(op="observation", dask=True, pipeline=probe_pipeline(r), values=[1, 2], pipeline_seed=gen_seed(r)))
+        runs.append(dict(op="observation", dask=True, pipeline=probe_pipeline(r), values=[1, 2], pipeline_seed=ps[3]))
         runs.append(dict(op="exposure", pipeline=closed_pipeline(r, SEEDS), steps=1, pipeline_seed=None))
     procs = [0, 1 + r.randrange(100), r.randrange(2 ** 32)]
     items = []
@@ -255,7 +258,9 @@ def gen_island_sessions(r, quick: bool):
     S = []
     for c in range(1 if quick else 3):
         n = r.choice([3, 4]) if c else 3
-        cal = dict(op="calibration", pipeline=det_cal_pipeline(), pipeline_seed=None, pygmo_seed=r.randrange(100000),
+        # the optimiser seed at its boundaries too (0 is falsy, 100000 is the largest the setter accepts)
+        pg_seed = [0, 100000, r.randrange(1, 100000)][(c + r.randrange(3)) % 3] if c or r.random() < 0.5 else 0
+        cal = dict(op="calibration", pipeline=det_cal_pipeline(), pipeline_seed=None, pygmo_seed=pg_seed,
                    pop=r.choice([7, 8]), generations=1, evolutions=1, islands=n,
                    topology="unconnected" if c != 1 else "ring")
         step = 0.3
